@@ -525,7 +525,10 @@ def _recognise_postfix(tags, guard, gop, body, params, table):
                     rhs = c.comparators[0]
                     names = rhs.elts if isinstance(rhs, (ast.Tuple, ast.List,
                                                          ast.Set)) else [rhs]
-                    if not isinstance(c.ops[0], (ast.Is, ast.Eq, ast.In)) or \
+                    # (`is X` / `in (X, Y)` ends the list, `is not X` /
+                    # `not in (X, Y)` continues it: the same set of closers)
+                    if not isinstance(c.ops[0], (ast.Is, ast.Eq, ast.In, ast.IsNot,
+                                                 ast.NotEq, ast.NotIn)) or \
                             not all(isinstance(n_, ast.Name)
                                     and n_.id in table.tagvars for n_ in names):
                         raise AnalysisError("comma branch: look-ahead test not "
